@@ -104,7 +104,7 @@ def run_shard(spec) -> Acc:
 
 
 def plan(tier, seed):
-    n = 250 if tier == "quick" else 6000
+    n = 500 if tier == "quick" else 6000
     specs = [{"shard": i, "n": n, "max_len": 14 if tier == "quick" else 40} for i in range(16)]
     k = 4 if tier == "quick" else 16
     specs += [{"part": "sweep", "idx": i, "of": k, "max_len": 2 if tier == "quick" else 3} for i in range(k)]
